@@ -137,8 +137,9 @@ func renderSTLPlain(cues []srtCue, dsc byte, fps int64, tcpSeconds int64) []byte
 		t[4] = 0
 		copy(t[5:], stlTimecode(c.Start+tcpSeconds*1e9, fps))
 		copy(t[9:], stlTimecode(c.End+tcpSeconds*1e9, fps))
-		t[13] = 20
-		t[14] = 2
+		// vertical position and justification vary with the cue (top, middle and bottom rows; unchanged/left/centred/right)
+		t[13] = []byte{20, 1, 3, 7, 11, 12, 16, 22, 23, 20}[(i+len(cues)+int(c.Start/4e7))%10]
+		t[14] = []byte{2, 0, 1, 3}[(i+int(c.End/4e7))%4]
 		t[15] = 0
 		var tf []byte
 		for li, l := range plainLines(c) {
